@@ -15,10 +15,10 @@ FINISH = dict(level="proof", rule=(
     "callback, namespace)."))
 
 HDR = "From Coq Require Import List.\nImport ListNotations.\nFrom GS Require Import Launch.SyncLts Launch.EvalSync.\n"
-EXPECT = {"clone": "clone", "idmap": "unshare_user_read", "setgid": "setgid", "dup3": "dup3", "mount": "mount", "pivot": "mount(tmpfs)",
+EXPECT = {"clone": "clone", "idmap": "unshare_user_read", "setgid": "setgid", "setgroups": "setgroups", "dup3": "dup3", "mount": "mount", "pivot": "mount(tmpfs)",
           "chdir": "chdir", "rlimit": "setrlimt", "seccomp": "seccomp", "execve": "execve"}
 INDEX = {"mount": 1, "rlimit": 1}
-FORCES_USERNS = {"idmap", "setgid", "mount", "pivot", "rlimit"}
+FORCES_USERNS = {"idmap", "setgid", "setgroups", "mount", "pivot", "rlimit"}
 LOCNUM = {"clone": 1, "unshare_user_read": 2, "sync_read": 4, "execve": 5}
 
 
